@@ -53,6 +53,9 @@ def parse_transcript(text):
         elif line.startswith('CRASH'):
             cur.x.append(('*', 'the crate aborted the whole process (%s): allocation failure, stack overflow or a fatal signal' % line))
             cur.hang = True
+        elif line == 'DIED':
+            cur.x.append(('*', 'the crate panicked while the harness observed an instance (outside the guarded operation)'))
+            cur.hang = True
         elif line == 'HANG':
             cur.x.append(('*', 'the crate did not return within the time limit (non-termination)'))
             cur.hang = True
@@ -268,6 +271,7 @@ def model_check(st, cases, tag, shards=16):
     """replay the transcript cases on the extracted model; returns (disagreements, aux items, errors)
        disagreement: (case, transcript op index, model result text)"""
     os.makedirs(BUILD, exist_ok=True)
+    cases = [c for c in cases if c.cfg.get('nomodel') != '1']   # known-finding corpus cases where the crate panics: oracle only
     n = max(1, (len(cases) + shards - 1) // shards)
     chunks = [cases[i:i + n] for i in range(0, len(cases), n)]
     aux, jobs = [], []
